@@ -43,6 +43,9 @@ def gen_item_C07(rng, idx, tier):
     ops = [gen_prune_op(rng, case, allow_crits=case['kind'] != 'bigint') for _ in range(rng.choice([1, 1, 2, 2, 3, 4]))]
     # fault path: some prunes are first attempted with a user criterion that raises (see session.run_session)
     ops = [op + ('failfirst',) if rng.random() < 0.2 else op for op in ops]
+    # pruning a dendrogram that was saved and loaded (its internal tables are filled in another order than compute's)
+    if rng.random() < 0.25 and case['kind'] != 'bigint':
+        ops.insert(rng.randint(0, len(ops) - 1), ('reload', rng.choice(['hdf5', 'fits'])))
     return {'case': case, 'ops': ops}
 
 
@@ -155,6 +158,8 @@ def eval_C07(item):
                 res['corr'].append(lab + 'structure %d own pixels impl=%r model=%r' % (sid, sorted(st.iobs['structs'][sid]['own']), sorted(st.mobs['structs'][sid]['own'])))
         res['pred'] += [lab + x for x in preds.pred_C02(ctx, d, st.iobs, fresh=False)]
         res['pred'] += [lab + x for x in preds.pred_C06(ctx, d, st.iobs)] if i == len(steps) - 1 else []
+        if st.op[0] != 'prune':
+            continue                     # a save / load in between: compared with the model above, nothing pruned
         res['pred'] += [lab + x for x in pred_prune_step(ctx, prev.iobs, st.iobs, st)]
         n_removed += len(prev.iobs['structs']) - len(st.iobs['structs'])
         # parameter bookkeeping against the model's pruneParam (0 inherits; the record is replaced unless the
